@@ -25,6 +25,18 @@ def _np(t):
     return t.detach().cpu().double().numpy()
 
 
+def _eps_tol(t, base, factor=200.0):
+    """tolerance for a quantity computed in t's precision: `base` in double precision, a few hundred ulps in single precision
+    (the repository's own tests run with the float32 default)"""
+    import torch
+
+    try:
+        eps = torch.finfo(t.dtype).eps
+    except TypeError:
+        eps = 2.2e-16
+    return max(base, factor * eps)
+
+
 class Overlay:
     def __init__(self, props, context=None, max_violations=40, recompute_every=7):
         self.props = set(props)
@@ -123,11 +135,12 @@ class Overlay:
                 if not np.all(np.isfinite(P)):
                     ov.record("C04:overlay:p_t-not-finite:" + name, "p_t returned non-finite entries for finite branch lengths >= 0", model=name, parameters=pars)
                     return True
+                tolp = _eps_tol(result, 1e-8)
                 rs = np.abs(P.sum(-1) - 1).max()
-                if rs > 1e-8:
+                if rs > tolp:
                     ov.record("C04:overlay:p_t-row-sum:" + name, "rows of P(t) sum to 1%+.3g" % (P.sum(-1) - 1).flat[np.abs(P.sum(-1) - 1).argmax()], model=name,
                               branch_lengths=bl.reshape(-1)[:6].tolist(), parameters=pars)
-                if P.min() < -1e-8:
+                if P.min() < -tolp:
                     ov.record("C04:overlay:p_t-negative:" + name, "P(t) has an entry %.3g" % P.min(), model=name, branch_lengths=bl.reshape(-1)[:6].tolist(), parameters=pars)
             except Exception as e:  # the monitor must never break the workload
                 ov.count("C04.monitor_errors")
@@ -172,13 +185,14 @@ class Overlay:
                 if not (np.all(np.isfinite(r)) and np.all(np.isfinite(p))):
                     ov.record("C05:overlay:nonfinite:" + name, "non-finite rates or probabilities for parameters in the domain", model=name)
                     return True
-                if p.min() < 0 or np.abs(p.sum(-1) - 1).max() > 1e-9:
+                tolr = _eps_tol(result, 1e-9)
+                if p.min() < 0 or np.abs(p.sum(-1) - 1).max() > tolr:
                     ov.record("C05:overlay:probabilities:" + name, "category probabilities %s are not a probability vector" % p.reshape(-1)[:6].tolist(), model=name)
                 if r.min() < 0:
                     ov.record("C05:overlay:rate-negative:" + name, "negative category rate %.3g" % r.min(), model=name)
                 mean = (np.broadcast_to(p, np.broadcast(p, r).shape) * r).sum(-1)
                 want = mu[..., 0] if mu.ndim >= 1 else mu
-                if np.abs(mean - want).max() > 1e-9 * max(1.0, float(np.max(want))):
+                if np.abs(mean - want).max() > tolr * max(1.0, float(np.max(want))):
                     ov.record("C05:overlay:mean-rate:" + name, "sum_k p_k r_k = %s, expected %s" % (np.asarray(mean).reshape(-1)[:3].tolist(), np.asarray(want).reshape(-1)[:3].tolist()), model=name)
             except Exception as e:
                 ov.count("C05.monitor_errors")
@@ -254,7 +268,7 @@ class Overlay:
                 ov.count("C06.branch_lengths_judged")
                 for pa, ch in relation(self):
                     d = h[..., pa] - h[..., ch]
-                    if np.abs(b[..., ch] - d).max() > 1e-12 * max(1.0, float(np.abs(h).max())):
+                    if np.abs(b[..., ch] - d).max() > _eps_tol(result, 1e-12, 20.0) * max(1.0, float(np.abs(h).max())):
                         ov.record("C06:overlay:branch-length-not-height-difference:" + type(self).__name__, "branch above node %d has length %.9g, heights differ by %.9g" % (ch, b[..., ch].reshape(-1)[0], d.reshape(-1)[0]),
                                   model=type(self).__name__)
                         break
